@@ -88,7 +88,7 @@ def run(ctx, prog, res):
                 nm = flow.call_names(t)[0]
                 if re.search(r"(core::cmp::max$|Ord::max$|Iterator::max(_by|_by_key)?$)", nm) and "NaiveDate" in t["callee"].get("path_args", ""):
                     r1.fail("C02.R1:max:%s" % f.id, "a hint is combined with a maximum in %s" % f.id, lib.where_of(prog.fns[x], t))
-    cl = [prog.fns[c] for c in prog.closures(oh_hint.id)]
+    cl = [prog.fns[c] for c in prog.closures(oh_hint.id) if prog.fns[c].parent == oh_hint.id]
     ok = len(cl) == 1
     if ok:
         got = lib.reads(prog, cl[0].id, RS)
@@ -297,3 +297,44 @@ def run(ctx, prog, res):
                      "C02.R6:%s:%s" % (flt.impl.get("self", "").split("::")[-1], kind),
                      "%s: the filter tests is_open_from_%s on a generated sequence, but the hint does not compute next_change_from_%s from the same sequence (%s)" % (flt.impl.get("self", "").split("::")[-1], kind, kind, why), lib.where_of(hnt))
     r6.floor(3)
+
+    # R7 -------------------------------------------------------------------------------------
+    r7 = res.rule("C02.R7", "the skip hint looks at every day the day's schedule depends on: the schedule of a day consults each rule's day selector for that day and for the day before (yesterday's spill past midnight); the hint may only skip ahead for a rule after consulting the day selector for the same set of days")
+    DFT = "opening_hours::filter::date_filter::DateFilter"
+
+    def day_offsets(root):
+        """Offsets (0 = the date itself, -1 = the day before) on which DaySelector::filter is consulted
+        in a function and its closures."""
+        offs = set()
+        ids = prog.with_closures(root.id)
+        for fid in ids:
+            f = prog.fns[fid]
+            for _, t in f.calls():
+                c = t["callee"]
+                if "indirect" in c or c.get("trait") != DFT or c.get("name") != "filter" or "DaySelector" not in (c.get("self_ty") or ""):
+                    continue
+                sh = flow.shape(f, t["args"][1], depth=6)
+                if "pred_opt" in sh:
+                    offs.add(-1)
+                    continue
+                # the date is the closure's own parameter: it is the payload of the Option / iterator the closure is applied to
+                if f.kind == "Closure" and re.fullmatch(r"\*?p2", sh.replace("(", "").replace(")", "")):
+                    par = prog.fns.get(f.parent)
+                    found = False
+                    while par is not None and not found:
+                        for _, pt in par.calls():
+                            for i, a in enumerate(pt["args"]):
+                                if flow.closure_of_operand(par, a) == f.id and pt["args"]:
+                                    recv = flow.shape(par, pt["args"][0], depth=6)
+                                    offs.add(-1 if "pred_opt" in recv else 0)
+                                    found = True
+                        par = prog.fns.get(par.parent) if par.kind == "Closure" else None
+                    if not found:
+                        offs.add(0)
+                else:
+                    offs.add(0)
+        return offs
+    ev = prog.require_fn("opening_hours::opening_hours::rule_sequence_schedule_at")
+    want, have = day_offsets(ev), day_offsets(oh_hint)
+    r7.check(bool(want) and want <= have, {"day_evaluation_consults_offsets": sorted(want), "hint_consults_offsets": sorted(have)}, "C02.R7:days",
+             "the day's schedule consults the day selector at day offsets %s, the skip hint only at %s: a rule that matched yesterday and spills over the whole of today lets the hint jump over tomorrow's change" % (sorted(want), sorted(have)), lib.where_of(oh_hint))
